@@ -343,6 +343,9 @@ func ByteClasses() [][]byte { return byteClasses }
 // MkStringer: a Stringer primitive with the given text
 func MkStringer(s string) Prim { return Prim{"Stringer", stringer{s}} }
 
+// GenTime exposes the instant generator
+func GenTime(r *Rng) time.Time { return genTime(r) }
+
 func GenBytes(r *Rng) []byte {
 	var n int
 	switch r.Intn(20) {
